@@ -260,14 +260,30 @@ def _inline_nested(fi: FuncInfo, ff, at_stmt, text: str) -> str:
 
 def clamp(prog: Program, rep) -> None:
     """StepResult._compute_xn clamps the new point into [var_lb, var_ub] (two-sided) on every path."""
-    m = prog.func("pygradflow.step.solver.step_solver.StepResult._compute_xn")
+    # the method of StepResult that stores the new point (by role: `_compute_xn` on the pinned tree; its body may have moved)
+    sr_cls = prog.cls("pygradflow.step.solver.step_solver.StepResult")
+    cand = [m_ for m_ in sr_cls.methods.values() if any(isinstance(n_, ast.Attribute) and isinstance(n_.ctx, ast.Store) and U(n_) == "self.xn" for n_ in own_nodes(m_.node))]
+    if len(cand) != 1:
+        raise AnalysisError(f"StepResult: expected one method storing self.xn, found {[c_.name for c_ in cand]}")
+    m = cand[0]
     ff = facts_for(m)
-    xn_stores = [s for s in ff.order if isinstance(s.stmt, ast.Assign) and any(U(t) == "self.xn" for t in s.stmt.targets)]
+    xn_stores = []
+    for s in ff.order:
+        if isinstance(s.stmt, ast.Assign) and len(s.stmt.targets) == 1:
+            t, v_ = s.stmt.targets[0], s.stmt.value
+            pairs = list(zip(t.elts, v_.elts)) if isinstance(t, ast.Tuple) and isinstance(v_, ast.Tuple) and len(t.elts) == len(v_.elts) else [(t, v_)]
+            for tt, vv in pairs:
+                if U(tt) == "self.xn":
+                    xn_stores.append((s, vv))
     if not xn_stores:
-        raise AnalysisError("StepResult._compute_xn: no store to self.xn")
-    lbq, ubq = "self.orig_iterate.problem.var_lb", "self.orig_iterate.problem.var_ub"
-    for xs in xn_stores:
-        var = xs.stmt.value
+        raise AnalysisError("StepResult: no store to self.xn")
+    # the originating iterate: self.orig_iterate, or (inside __init__) the parameter it is stored from
+    oi = "self.orig_iterate"
+    for s in ff.order:
+        if isinstance(s.stmt, ast.Assign) and any(U(t) == "self.orig_iterate" for t in s.stmt.targets) and isinstance(s.stmt.value, ast.Name) and s.stmt.value.id in m.params:
+            oi = s.stmt.value.id
+    lbq, ubq = f"{oi}.problem.var_lb", f"{oi}.problem.var_ub"
+    for xs, var in xn_stores:
         if not isinstance(var, ast.Name):
             v = ff.resolved(xs.stmt, var)
             ok = np_call(v, "clip") and len(v.args) == 3 and U(v.args[1]) == lbq and U(v.args[2]) == ubq
@@ -277,6 +293,22 @@ def clamp(prog: Program, rep) -> None:
                       f"the new point is the component-wise clamp of x - dx into [var_lb, var_ub] (found {U(v)[:100]})", m.loc(xs.stmt))
             continue
         name = var.id
+        # follow plain copies (also element-wise tuple copies) back to the array that is clamped
+        for _ in range(4):
+            root = None
+            for s in ff.order:
+                if s.index >= xs.index:
+                    break
+                st = s.stmt
+                if isinstance(st, ast.Assign) and len(st.targets) == 1:
+                    t, v_ = st.targets[0], st.value
+                    pairs = list(zip(t.elts, v_.elts)) if isinstance(t, ast.Tuple) and isinstance(v_, ast.Tuple) and len(t.elts) == len(v_.elts) else [(t, v_)]
+                    for tt, vv in pairs:
+                        if isinstance(tt, ast.Name) and tt.id == name and isinstance(vv, ast.Name):
+                            root = vv.id
+            if root is None:
+                break
+            name = root
         base = None
         clamps = {"lower": False, "upper": False}
         for s in ff.order:
@@ -301,6 +333,5 @@ def clamp(prog: Program, rep) -> None:
                                 clamps[side] = True
         rep.check(clamps["lower"] and clamps["upper"], "accepted-step-in-box", m.qualname, short(xs.stmt),
                   f"on every path the point stored as the new x was clamped on both sides against the problem's var_lb / var_ub before (found {clamps})", m.loc(xs.stmt))
-        dxp = [p_ for p_ in m.params if p_ != "self"][0]
-        rep.check(base is not None and f"self.orig_iterate.x - {dxp}" in U(base), "accepted-step-in-box", m.qualname, "xn = iterate.x - dx",
+        rep.check(base is not None and U(base).startswith(f"{oi}.x - ") and U(base)[len(f"{oi}.x - "):] in m.params, "accepted-step-in-box", m.qualname, "xn = iterate.x - dx",
                   "the clamped point is x - dx of the originating iterate", m.loc())
